@@ -4,6 +4,7 @@ package glue
 
 import (
 	"fmt"
+	"reflect"
 	"time"
 
 	"github.com/vmware/go-ipfix/pkg/collector"
@@ -18,9 +19,9 @@ type FrozenClock struct{ T time.Time }
 
 type frozenTimer struct{}
 
-func (frozenTimer) Stop() bool                 { return true }
-func (frozenTimer) Reset(time.Duration) bool   { return true }
-func (c FrozenClock) Now() time.Time           { return c.T }
+func (frozenTimer) Stop() bool                                             { return true }
+func (frozenTimer) Reset(time.Duration) bool                               { return true }
+func (c FrozenClock) Now() time.Time                                       { return c.T }
 func (c FrozenClock) AfterFunc(time.Duration, func()) collector.VerifTimer { return frozenTimer{} }
 
 // TplKey identifies a template.
@@ -96,10 +97,20 @@ func CheckDataMsg(msg *entities.Message, fields []ref.Field, body []byte, mode c
 	if len(recs) != len(r.Records) {
 		return ev.Failf("%d records delivered, the set body holds exactly %d (padding %d bytes, min record %d)", len(recs), len(r.Records), len(r.Padding), ref.MinRecLen(fields))
 	}
+	// every delivered field is an object of its own: consumers fill fields in place (the library's
+	// aggregation process sets empty correlate fields of a held record), so two fields that are one
+	// object make a write to one record show in another
+	owner := map[entities.InfoElementWithValue]int{}
 	for ri, rec := range recs {
 		els := rec.GetOrderedElementList()
 		if int(rec.GetFieldCount()) != len(els) {
 			return ev.Failf("record %d: field count %d but %d elements", ri, rec.GetFieldCount(), len(els))
+		}
+		for fi, el := range els {
+			if prev, dup := owner[el]; dup && reflect.ValueOf(el).Kind() == reflect.Ptr {
+				return ev.Failf("record %d field %d is the same element object as a field of record %d: filling one in place changes the other", ri, fi, prev)
+			}
+			owner[el] = ri
 		}
 		k := 0
 		for fi, f := range fields {
